@@ -30,8 +30,6 @@ be equal; such over-equalities are counted in the evidence only.
 Signature = law + the two node classes after descending to the smallest corresponding child pair that
 still breaks the same law; the minimal example is the first (smallest-first) pair with that signature.
 """
-import itertools
-
 PROPERTY = 'C11'
 LEVEL = 'exploration'
 META = dict(
@@ -160,6 +158,7 @@ def zoo_specs(thorough):
             ['and', [['cmp', x, '<', y], L]], ['or', [L, ['cmp', x, '<', y]]], ['not', ['cmp', x, '==', y]],
             ['padd', [x, y]], ['pmul', [x, y]], ['pdiv', x, y], ['ppow', x, y],
             ['concat', [['str', 'abc'], z]], ['concat', [z, ['str', 'ABC']]],
+            ['cmp', x, '==', ['str', 'abc']], ['cmp', x, '==', ['str', 'ABC']],
             ['cast', 'real', x], ['cast', 'real', x, KIND], ['cast', 'int', x],
             ['ref', x], ['deref', x],
             ['call', FN, [x]], ['call', FN, [x, y]], ['call', FN, [x], [['kwarg', y]]],
@@ -318,7 +317,7 @@ def node_row(arg):
     """Top-level worker: all pairs (x_i, y_j) for one i.  Returns (violations, counters)."""
     i, tier = arg
     nodes = get_nodes(tier)
-    _, si, vi, x = nodes[i]
+    _, si, _, x = nodes[i]
     viol, cnt = [], dict(pairs=0, equal=0, twins=0, exempt=0, str_overequal=0)
     try:
         h1, h2 = hash(x), hash(x)
@@ -327,7 +326,7 @@ def node_row(arg):
     except Exception as e:  # pylint: disable=broad-except
         viol.append(('hash-raises', i, i, f'{type(e).__name__}: {e}'))
         return viol, cnt
-    for j, (_, sj, vj, y) in enumerate(nodes):
+    for j, (_, sj, _, y) in enumerate(nodes):
         try:
             hash(y)
         except Exception:  # pylint: disable=broad-except
@@ -343,7 +342,7 @@ def node_row(arg):
             viol.append((law, i, j, text))
         if i != j and not twins and eq(x, y)[0]:
             cnt['equal'] += 1
-            if 'abc' in repr(nodes[i][1]) and 'ABC' in repr(nodes[j][1]):
+            if "'abc'" in spec_repr(tier, si) and "'ABC'" in spec_repr(tier, sj):
                 cnt['str_overequal'] += 1
         elif eq(x, y)[0]:
             cnt['equal'] += 1
@@ -351,6 +350,14 @@ def node_row(arg):
 
 
 _NODES = {}
+_SPEC_REPR = {}
+
+
+def spec_repr(tier, si):
+    if tier not in _SPEC_REPR:
+        _SPEC_REPR[tier] = [repr(sp) for _, sp in zoo_specs(tier == 'thorough')]
+    return _SPEC_REPR[tier][si]
+
 
 
 def get_nodes(tier):
@@ -367,6 +374,13 @@ def get_nodes(tier):
                 out.append((depth, si, v, build_safe(spec, v)))
         _NODES[tier] = out
     return _NODES[tier]
+
+
+def differ_in_case_only(x, y):
+    try:
+        return str(x) != str(y) and str(x).lower() == str(y).lower()
+    except Exception:  # pylint: disable=broad-except
+        return False
 
 
 def describe(n):
@@ -416,14 +430,13 @@ def run(ctx):
         if law == 'symmetry':
             names.sort()                 # (x, y) and (y, x) break symmetry together: one signature
         sig = f'{law}: {names[0]} vs {names[1]}'
-        if law == 'case' or (law in ('hash', 'dict') and twins):
+        if law == 'case' or (law in ('hash', 'dict') and differ_in_case_only(mx, my)):
             sig += ' (case twins)'
         case = dict(law=law, x=dict(spec=specs[nodes[i][1]][1], variant=nodes[i][2]),
                     y=dict(spec=specs[nodes[j][1]][1], variant=nodes[j][2]))
         ctx.violation(sig, case, f'x = {describe(x)}, y = {describe(y)}: {text}; smallest offending sub-pair: '
                                  f'{describe(mx)} / {describe(my)}')
     import loki.expression.symbols as sym
-    import loki.expression.operations as ops
     import pymbolic.primitives as pmbl
     expected = [c for c in (sym.__all__) if isinstance(getattr(sym, c, None), type)
                 and issubclass(getattr(sym, c), pmbl.Expression)]
